@@ -8,6 +8,21 @@ CHECKS = {
    note="Trusted: Coq kernel+vm_compute, the hand-written model (checked by sampled correspondence, not proved), harness+facade, python driver. Msg/Bytes aliasing not modelled.",
    technique="Coq proof: stepper append-stability => chunk independence; round-trip by induction; differential correspondence vs real code",
    design="6/C03"),
+ "C04": dict(
+   text="Coq proof that the engine model (ZmtpEngine as an accumulator stepper) ends in the same protocol state with the same leftover and emits the same action sequence for every two segmentations of every byte string (any configuration, valid transcript or not), that its outputs are prefix-monotone in the received bytes, that well-formed messages are delivered one batch each, and that the session actor queues exactly the engine's deliveries (incl. those made in the read that completes the handshake). Tie: the real ZmtpEngine is driven with honest transcripts under single cuts at every position around the handshake end, byte-by-byte and random cuts and compared with the model; real PULL listeners (tokio and io_uring backends) are fed by a raw TCP peer with controlled write boundaries.",
+   note="Trusted: Coq kernel, model faithfulness (sampled correspondence), harness/facade/driver; TCP delivers bytes in order. CURVE/NOISE transcripts are not generated for this property (opaque mechanisms).",
+   technique="Coq proof: append-stable stepper => chunk independence of the engine; actor forwarding lemma; differential engine + raw-TCP stack scenarios",
+   design="6/C04"),
+ "C07": dict(
+   text="Coq proofs over the engine model for every configuration and every input history: no panic site is reachable, the handler loop never runs out of fuel, every error closes the engine and Closed absorbs all inputs, with MAXMSGSIZE=m the undecoded leftover stays below max(64, 9+m), a frame of exactly m bytes is accepted and any larger one rejected (both header forms). Tie: hostile hand-written transcripts (>255 MORE frames, invalid UTF-8/truncated/oversized READY metadata, malformed PLAIN tokens, v2 abuse, bad greetings), mutated honest transcripts and random bytes under random segmentation and MAXMSGSIZE values are run on the real engine (catch_unwind, buffer_len logged) and on the model.",
+   note="Trusted: as C04. Handshake-deadline and slot release of the session actor are not covered by this check yet (see DESIGN section 6/C07); CURVE/NOISE token parsers are not modelled.",
+   technique="Coq proof: invariants by case analysis over every micro-step of the engine model + quiescence bound; mutation-fuzz differential correspondence",
+   design="6/C07"),
+ "C12": dict(
+   text="Coq refinement proof: the subscription trie model (written after trie.rs incl. early return, restore-on-zero, unpruned children) refines a multiset of topics for every subscribe/unsubscribe history; matches t m <-> some active topic is a prefix of m; N subscribes need N unsubscribes; the three subscriber-side filter paths apply the same first-frame predicate and keep order. Publisher side: sequential per-peer send model with the refuted 'never blocks' statement as a witness. Tie: op histories and filtered sends run on the real SubscriptionTrie / FilteredAnonymous sender and on the model; real PUB/SUB sockets over inproc and tcp.",
+   note="Trusted: Coq kernel, model faithfulness (sampled), harness. Concurrent match-while-update is not modelled (sequential histories only).",
+   technique="Coq proof: refinement of the trie to a topic multiset (induction over topic bytes and op histories); differential correspondence + real PUB/SUB scenarios",
+   design="6/C12"),
 }
 NOT_APPLICABLE = {}
 
